@@ -128,6 +128,13 @@ def _unaccounted(fx, hb):
     return False
 
 
+def _prints_stdout(fx, hb):
+    for n, ps in walk_body(hb):
+        if n.get("k") in ("Call", "MethodCall", "FormatArgs") and set(user_macros_of(n)) & {"println", "print", "dbg"}:
+            return True
+    return False
+
+
 # (rule, canary function, detector, expected verdict)
 CANARIES = [
     ("R8.count", "canary_write_count_dropped", _write_count_dropped, True),
@@ -154,6 +161,8 @@ CANARIES = [
     ("Rx.profile", "canary_plain_mul", _plain_arith, True),
     ("Rx.profile", "canary_neg", _plain_arith, True),
     ("Rx.profile", "canary_wrapping", _plain_arith, False),
+    ("R4.stdout", "canary_println", _prints_stdout, True),
+    ("R4.stdout", "canary_eprintln", _prints_stdout, False),
     ("R10.noexit0", "canary_exit", _forbidden, True),
     ("R10.noexit0", "canary_eprintln", _forbidden, True),
     ("R10.noexit0", "canary_catch", _forbidden, True),
